@@ -497,7 +497,7 @@ pub fn run(ctx: &Ctx) -> i32 {
     }
     // the same, with one long test case (size-dependent caches): 300 ... 1100 graphemes, repetition conversion on
     {
-        let lens: &[usize] = if ctx.thorough { &[260, 300, 520, 700, 1030, 1100, 2060] } else { &[300, 520, 1030] };
+        let lens: &[usize] = if ctx.thorough { &[260, 300, 520, 700, 1030, 1100] } else { &[300, 520, 1030] };
         let toggles: &[u32] = if ctx.thorough { &[CAP, VERB, COLOR, CI, NOEND] } else { &[CAP, VERB, COLOR] };
         let n = lens.len() * toggles.len();
         par_for(&ctx.run, n, |i, st| {
